@@ -155,6 +155,53 @@ theorem C12_router_wrap_router_device_cancelled (c : Client) (src : Src) (method
     hmsgs, hatt, hgone, htr]
   cases park <;> simp
 
+/-- **Going away only cuts the call short**: let a handler make the calls `ops ++ more` and end with any status.
+For every caller script, what the router gave a caller whose context ended after `ops` is the beginning of what
+it gives a caller that stays to the end: the same call on the same client, the responses a prefix of the full
+call's responses, and header metadata — if any was offered — equal to the full call's.  Nothing is invented,
+reordered or altered by the cancellation. -/
+theorem C12_cancelled_call_is_a_prefix (got : Res) (method req : Tok) (enc : List Tok → Tok) (buf : Tok)
+    (ops more : List HOp) (ce : Tok) (st : Option Tok) (k : CallerScript) :
+    let oc := forwardStream got method req (cancelView enc buf ops ce) k
+    let ofull := forwardStream got method req (wrapView enc buf (ops ++ more) st) k
+    oc.calls = ofull.calls ∧ (∃ rest, ofull.sent = oc.sent ++ rest) ∧
+    (∀ h, oc.header = some (some h) → ofull.header = some (some h)) := by
+  have hv1 := C12_cancelled_stream_view enc buf ops ce
+  have hv2 := C12_wrapped_stream_view enc buf (ops ++ more) st
+  generalize cancelView enc buf ops ce = cv at hv1 ⊢
+  generalize wrapView enc buf (ops ++ more) st = wv at hv2 ⊢
+  have a1 : cv.openErr = none := by rw [hv1]
+  have a2 : cv.headerErr = none := by rw [hv1]
+  have a3 : cv.header = if headerGone ops then some (enc (attached ops)) else none := by rw [hv1]
+  have a4 : cv.msgs = sentVals buf ops := by rw [hv1]
+  have b1 : wv.openErr = none := by rw [hv2]
+  have b2 : wv.headerErr = none := by rw [hv2]
+  have b3 : wv.header = some (enc (attached (ops ++ more))) := by rw [hv2]
+  have b4 : wv.msgs = sentVals buf (ops ++ more) := by rw [hv2]
+  cases got with
+  | got c src =>
+    have h1 := forwardStream_open_parts c src method req cv k a1 a2
+    have h2 := forwardStream_open_parts c src method req wv k b1 b2
+    simp only at h1 h2
+    refine ⟨by rw [h1.1, h2.1], ?_, ?_⟩
+    · rw [h1.2.2, h2.2.2, a4, b4]
+      cases k.sendHeaderErr with
+      | some e => exact ⟨[], rfl⟩
+      | none =>
+        simp only [sentVals_append]
+        exact pumpLoop_append_prefix _ _ _ _
+    · intro h hh
+      rw [h1.2.1, a3] at hh
+      rw [h2.2.1, b3]
+      by_cases hg : headerGone ops = true
+      · simp only [hg, if_true] at hh
+        rw [attached_append_gone ops more hg]
+        exact hh
+      · simp [hg] at hh
+  | prev _ => exact ⟨rfl, ⟨[], rfl⟩, fun h hh => by simp [forwardStream] at hh⟩
+  | bool _ => exact ⟨rfl, ⟨[], rfl⟩, fun h hh => by simp [forwardStream] at hh⟩
+  | notFound => exact ⟨rfl, ⟨[], rfl⟩, fun h hh => by simp [forwardStream] at hh⟩
+
 /-! ## Non-vacuity / illustrations -/
 
 /-- application + middleware: two header options and two trailer options, all four variables filled. -/
